@@ -44,6 +44,7 @@ type ccCase struct {
 	Race       bool     `json:"race,omitempty"`     // C19: listener installed, Wait/SaveCache/Close/hybrid operations enabled
 	Hybrid     bool     `json:"hybrid,omitempty"`
 	LoadStorm  bool     `json:"load_storm,omitempty"`
+	PanicEvery int      `json:"panic_every,omitempty"` // C19: the loader panics on every n-th invocation (callers recover)
 	ShortTTL   bool     `json:"short_ttl,omitempty"` // C16: SetWithTTL uses 1-3 ms and the programs nap, so Gets meet expired entries that are still resident
 }
 
@@ -216,7 +217,16 @@ func (r *ccRun) doOp(g int, op ccOp) {
 		r.gets[g]++
 		ctx := context.WithValue(context.Background(), ccCtxKey{}, &rec)
 		rec.Call = r.stamp.Add(1)
-		v, err := r.ls.Get(ctx, op.K)
+		var v int64
+		var err error
+		func() {
+			defer func() {
+				if p := recover(); p != nil {
+					err = fmt.Errorf("loader panicked: %v", p)
+				}
+			}()
+			v, err = r.ls.Get(ctx, op.K)
+		}()
 		rec.Ret = r.stamp.Add(1)
 		if err != nil {
 			return
@@ -331,7 +341,12 @@ func execConc(c ccCase, x *verifkit.Ctx, lin, counters bool) (fail *verifkit.Fai
 				rec.Loaded = true
 			}
 			r.loads.Add(1)
-			v := ccValue(key, 200, lseq.Add(1))
+			n := lseq.Add(1)
+			if c.PanicEvery > 0 && n%int64(c.PanicEvery) == 0 {
+				runtime.Gosched() // keep the flight open for joiners
+				panic("scripted loader panic")
+			}
+			v := ccValue(key, 200, n)
 			runtime.Gosched()
 			end := r.stamp.Add(1)
 			r.ldMu.Lock()
@@ -739,6 +754,9 @@ func genC19(t *rapid.T) ccCase {
 	c.Pool = false
 	c.Race = true
 	c.Hybrid = !c.Loading && rapid.IntRange(0, 2).Draw(t, "hybrid") == 0
+	if c.Loading {
+		c.PanicEvery = rapid.SampledFrom([]int{0, 0, 2, 3, 5}).Draw(t, "panicEvery")
+	}
 	extra := rapid.Custom(func(t *rapid.T) ccOp {
 		k := rapid.IntRange(0, c.Keys-1).Draw(t, "k")
 		switch rapid.IntRange(0, 9).Draw(t, "xop") {
@@ -794,12 +812,13 @@ func TestVerifC19(t *testing.T) {
 				}
 			}
 			x.ClassIf(c.Hybrid, "hybrid")
+			x.ClassIf(c.PanicEvery > 0, "panicking-loader")
 			if len(c.Progs) >= 2 && conflicts > 0 {
 				x.NonTrivial()
 			}
 			return f
 		},
-		Rule:        "C19: the C01 program generator with the entry pool off and a removal listener installed, on plain, loading and hybrid stores, with SaveCache, Wait, Range, Len, EstimatedSize, Stats, hybrid Get/Delete and (in three fifths of the cases) one to three Close calls, possibly from different goroutines, sprinkled into the goroutine programs; the binary is built with -race and any 'WARNING: DATA RACE' in its output is the violation; non-trivial = at least two goroutines and at least one of SaveCache / Range / Close / Wait in the programs",
+		Rule:        "C19: the C01 program generator with the entry pool off and a removal listener installed, on plain, loading (in some cases the loader panics on every n-th invocation and the callers recover) and hybrid stores, with SaveCache, Wait, Range, Len, EstimatedSize, Stats, hybrid Get/Delete and (in three fifths of the cases) one to three Close calls, possibly from different goroutines, sprinkled into the goroutine programs; the binary is built with -race and any 'WARNING: DATA RACE' in its output is the violation; non-trivial = at least two goroutines and at least one of SaveCache / Range / Close / Wait in the programs",
 		Assumptions: []string{"the race detector only sees the interleavings that are executed", "the harness's own shared state is per-goroutine or atomic/mutex protected"},
 	})
 }
